@@ -10,7 +10,7 @@ import z3
 
 from . import ops
 from .loader import ClassInfo, ExtModule, builtin_class, has_builtin_class
-from .values import (ARR, BV8, FALSE, INT, MAXLEN, NONE, TRUE, W, HObj, Lit, Unsupported, V, VBool,
+from .values import (ARR, BV8, FALSE, Guarded, INT, MAXLEN, NONE, TRUE, W, HObj, Lit, Unsupported, V, VBool,
                      VBytes, VFloat, VInt, VNone, VRef, VStr, VTuple, VUnion, View, as_const, byte_val,
                      concat, fresh, iadd, isub, mkbool, mkint, _iv)
 
@@ -264,6 +264,11 @@ def b_len(I, fv, args, kw):
         return opaque_int(I, "strlen", [v], 0, MAXLEN)
     if isinstance(v, VRef):
         o = I.hobj(v)
+        if o.kind == "list" and any(isinstance(x, Guarded) for x in o.items):
+            acc = mkint(0)
+            for x in o.items:
+                acc = ops._arith(I, "+", acc, VInt(i=z3.If(x.cond, z3.IntVal(1), z3.IntVal(0)), lo=0, hi=1) if isinstance(x, Guarded) else mkint(1))
+            return acc
         if o.kind in ("list", "dict", "set"):
             return mkint(len(o.items))
         return sym_len(I, v, o)
@@ -295,6 +300,16 @@ def b_minmax(I, fv, args, kw):
 
 
 def b_anyall(I, fv, args, kw):
+    a0 = I.resolve(args[0])
+    if isinstance(a0, VRef) and I.hobj(a0).kind == "list" and any(isinstance(x, Guarded) for x in I.hobj(a0).items):
+        ts = []
+        for x in I.hobj(a0).items:
+            if isinstance(x, Guarded):
+                t = ops.truth(I, x.val).term()
+                ts.append(z3.And(x.cond, t) if fv.name == "any" else z3.Implies(x.cond, t))
+            else:
+                ts.append(ops.truth(I, x).term())
+        return VBool(t=z3.Or(ts) if fv.name == "any" else z3.And(ts))
     items = [ops.truth(I, x).term() for x in I.iterate(args[0])]
     if not items:
         return mkbool(fv.name == "all")
@@ -871,22 +886,24 @@ def set_eq(I, a, oa, b, ob):
     return VBool(t=z3.And([p == q for p, q in zip(xa, xb)])) if uni else TRUE
 
 
-def symset_add(I, s, o, x):
+def symset_add(I, s, o, x, cond=None):
     I.log_write(("cont", s.ref))
     x = I.resolve(x)
+    o.meta["mem"] = list(o.meta["mem"])
+    cnd = z3.BoolVal(True) if cond is None else cond
     for j, k in enumerate(o.items):
         r = ops.eq_values(I, k, x)
         if r.c is True:
-            o.meta["mem"][j] = z3.BoolVal(True)
+            o.meta["mem"][j] = z3.simplify(z3.Or(o.meta["mem"][j], cnd))
             return
         if r.c is None:
             # symbolic element: membership of each candidate becomes conditional
-            o.meta["mem"][j] = z3.simplify(z3.Or(o.meta["mem"][j], r.t))
+            o.meta["mem"][j] = z3.simplify(z3.Or(o.meta["mem"][j], z3.And(cnd, r.t)))
     if isinstance(x, VInt) and x.c is None:
         return      # symbolic enum value: universe already contains every candidate (checked by caller)
     if not any(ops.eq_values(I, k, x).c is True for k in o.items):
         o.items.append(x)
-        o.meta["mem"].append(z3.BoolVal(True))
+        o.meta["mem"].append(cnd)
 
 
 def sym_len(I, ref, o):
